@@ -419,7 +419,7 @@ func (g *pg) expr(ty Ty, d int, sc scope) val.V {
 	default:
 		if g.chance("anymap", 6) {
 			// map literal: evaluation order of the values is unspecified -> at most one effectful value
-			return val.M(map[string]val.V{val.KwMark + "a": g.leaf(TInt, sc), val.KwMark + "b": g.expr(TInt, d-1, sc)})
+			return val.M(map[string]val.V{val.KwMark + "a": val.I(g.pick("mapconst", 9)), val.KwMark + "b": g.expr(TInt, d-1, sc)})
 		}
 		if g.chance("anyleaf", 4) {
 			return g.leaf(TAny, sc)
